@@ -169,7 +169,7 @@ pub fn property(tree: &RefValue, text_a: &str, text_b: &str) -> Result<(), Strin
 	check_all_objects(&va, &back, &["", "absent\u{3}key"]).map_err(|m| format!("after canonicalization: {m}"))
 }
 
-fn arb_case() -> BoxedStrategy<(RefValue, Vec<u8>, Vec<u8>, Vec<u8>, Vec<u8>)> {
+pub fn arb_case() -> BoxedStrategy<(RefValue, Vec<u8>, Vec<u8>, Vec<u8>, Vec<u8>)> {
 	(super::c09_value(), proptest::collection::vec(any::<u8>(), 0..200), proptest::collection::vec(any::<u8>(), 0..200), gen::arb_choices(), gen::arb_choices()).boxed()
 }
 
